@@ -28,7 +28,7 @@ def random_menu(rng, n, ids_from=1, arrays=True, nonnumeric=True, ticks=(1, 8), 
         elif arrays and r < 0.35:
             vs, nn = rng.choice([("w",), ("w", "x")]), 2
         else:
-            vs, nn = rng.choice([("w",), ("w", "x"), ("x",), ("w",)]), 1
+            vs, nn = rng.choice([("w",), ("w", "x"), ("x",), ("w",), ("w", "y"), ("w", "x", "y", "z"), ("y", "z")]), 1
         num = None
         if nums and vs:
             num = {}
@@ -43,10 +43,12 @@ def random_menu(rng, n, ids_from=1, arrays=True, nonnumeric=True, ticks=(1, 8), 
 
 
 def sim_scripts(tables, menu, flags, num, depth, seed, workdir, max_flushes=4, max_crashes=2,
-                allow_close=True, trunc_every=10, allow_crash=True):
+                allow_close=True, trunc_every=10, allow_crash=True, field_menu=None, where_menu=None):
     """Behaviours of SimStore as lists of action records (TLC -simulate)."""
     mod, cfg = constants_module("SimRun", "SimStore", tables,
-                                {"c_Menu": [tla_point(p) for p in menu], "c_Sorted": {False}})
+                                {"c_Menu": [tla_point(p) for p in menu], "c_Sorted": {False},
+                                 "c_FieldMenu": {t.name: (field_menu or {}).get(t.name, []) for t in tables},
+                                 "c_WhereMenu": {t.name: (where_menu or {}).get(t.name, []) for t in tables}})
     cfg = ("SPECIFICATION SimSpec\n" + cfg + flags_cfg(flags, trunc_every) +
            "  MaxFlushes = %d\n  MaxCrashes = %d\n  Depth = %d\n  AllowClose = %s\n  AllowCrash = %s\n"
            "INVARIANT Emit\nCHECK_DEADLOCK FALSE\n" % (max_flushes, max_crashes, depth, tla(allow_close), tla(allow_crash)))
@@ -78,12 +80,24 @@ def probes(tables, only=None, subsets=None):
 def scenario_from_hist(scn, tables, menu, hist, opts=None, probe_every=True, int_vals=False, subsets=None):
     cmds = []
     up = False
+    cur = {t.name: t for t in tables}
     for h in hist:
         a = h["a"]
+        if a in ("AlterFields", "AlterWhere"):
+            old = cur[h["t"]]
+            new = old.altered(fields=h["fs"][1:]) if a == "AlterFields" else old.altered(where=h["w"])
+            cur[h["t"]] = new
+            line = {"a": a, "t": h["t"]}
+            line.update({"fs": h["fs"]} if a == "AlterFields" else {"w": h["w"]})
+            cmds.append({"a": "Alter", "tables": [cur[t.name].define() for t in tables], "lines": [line],
+                         "t": h["t"], "mem": a == "AlterFields"})
+            if probe_every:
+                cmds += probes([cur[t.name] for t in tables], only=h["t"])
+            continue
         if a == "Insert":
             cmds.append(render_insert(menu[h["i"] - 1], int_vals=int_vals))
         elif a == "Probe":
-            cmds += probes(tables, subsets=subsets)
+            cmds += probes([cur[t.name] for t in tables], subsets=subsets)
         elif a == "Start":
             cmds.append({"a": "Start"})
             up = True
@@ -95,7 +109,7 @@ def scenario_from_hist(scn, tables, menu, hist, opts=None, probe_every=True, int
             c = {"a": a, "t": h["t"]}
             cmds.append(c)
             if probe_every:
-                cmds += probes(tables, only=h["t"], subsets=subsets if a == "FlushSwap" else None)
+                cmds += probes([cur[t.name] for t in tables], only=h["t"], subsets=subsets if a == "FlushSwap" else None)
     if not up:
         cmds.append({"a": "Start"})
     cmds.append({"a": "Settle"})
@@ -163,10 +177,14 @@ def validate_chunk(tables, traces, flags, invs, workdir, trunc_every, name):
         open(os.path.join(common.SCRATCH_ROOT, "last_tlc_failure.out"), "w").write(r.out)
         raise InfraError("trace validation did not finish (output in .scratch/last_tlc_failure.out):\n" + r.out[-1500:])
     rep = json.loads(json.loads('"' + m.group(1) + '"'))
+    stuck = {}
+    for sm in re.finditer(r'<<"ZVSTUCK", "(.*)">>', r.out):
+        info = json.loads(json.loads('"' + sm.group(1) + '"'))
+        stuck[info["at"]] = info
     fails = {}
     for fl in rep["fails"]:
         scn, rec = index[fl["at"] - 1]
-        fails[fl["scn"]] = {"line": fl["at"], "rec": rec}
+        fails[fl["scn"]] = {"line": fl["at"], "rec": rec, "spec": stuck.get(fl["at"])}
     first = {}
     for v in sorted(rep["viol"], key=lambda v: v["at"]):
         first.setdefault((v["scn"], v["inv"]), v)
@@ -230,8 +248,11 @@ MC_MENU = [point(1, 1, 1), point(2, 2, 3, vs=("w", "x"), n=2), point(3, 3, 4, n=
 
 
 def model_check(module, tables, menu, flags, invs, props, workdir, max_flushes=3, max_crashes=2,
-                trunc_every=2, workers=None, timeout=3000, name="MCRun", extra_cfg="", sorted_set=(False,)):
-    extra = {"c_Menu": [tla_point(p) for p in menu], "c_Sorted": set(sorted_set)}
+                trunc_every=2, workers=None, timeout=3000, name="MCRun", extra_cfg="", sorted_set=(False,),
+                field_menu=None, where_menu=None):
+    extra = {"c_Menu": [tla_point(p) for p in menu], "c_Sorted": set(sorted_set),
+             "c_FieldMenu": {t.name: (field_menu or {}).get(t.name, []) for t in tables},
+             "c_WhereMenu": {t.name: (where_menu or {}).get(t.name, []) for t in tables}}
     mod, cfg = constants_module(name, module, tables, extra)
     spec = "MCSpec" if module == "MCStore" else "SimSpec"
     cfg = ("SPECIFICATION %s\n" % spec + cfg + flags_cfg(flags, trunc_every) +
@@ -255,7 +276,7 @@ def counterexample_script(tables, menu, flags, inv, workdir, **kw):
 # ---------------------------------------------------------------- replay + judge
 
 def run_and_judge(pid, V, bins, scenarios, tables_of, flags, invs, work, array_dup_oracle,
-                  classify=None, label="replay", value_oracle=None):
+                  classify=None, label="replay", value_oracle=None, end_oracle=True, decision_lines=False):
     """Runs scenarios on the real code, validates the traces with TLC and
     applies the end-state oracle.  tables_of(scn) -> list of Table.
     Returns statistics."""
@@ -295,7 +316,11 @@ def run_and_judge(pid, V, bins, scenarios, tables_of, flags, invs, work, array_d
             stats["harness_errors"] += 1
         if scn in fails:
             fl = fails[scn]
-            if fl["rec"]["a"] == "QueryResult":
+            if fl["rec"]["a"] == "Apply" and decision_lines:
+                rp = common.save_replay(pid, scn, {"scenario": sc, "rejected_at": fl, "kind": "decision"})
+                V.violation(rp, "%s: table %s %s entry %s, the specification decides otherwise at trace line %d"
+                            % (scn, fl["rec"]["t"], "stored" if fl["rec"]["data"] else "skipped", fl["rec"]["idx"], fl["line"]))
+            elif fl["rec"]["a"] == "QueryResult":
                 rp = common.save_replay(pid, scn, {"scenario": sc, "rejected_at": fl, "kind": "observation"})
                 V.violation(rp, "%s: rows returned by %s (mem=%s) are not the rows the specification allows at trace line %d"
                             % (scn, fl["rec"]["t"], fl["rec"]["mem"], fl["line"]))
@@ -309,6 +334,8 @@ def run_and_judge(pid, V, bins, scenarios, tables_of, flags, invs, work, array_d
         if herr:
             rp = common.save_replay(pid, scn + "-harness", {"scenario": sc, "kind": "harness-error", "error": herr[0]})
             V.notes.append("%s: harness error %s (scenario saved as %s)" % (scn, json.dumps(herr[0])[:300], rp))
+            continue
+        if not end_oracle:
             continue
         mem, disk = final_views(lines)
         n_entries = sum(1 for c in sc["cmds"] if c["a"] == "Insert")
@@ -348,7 +375,7 @@ def sample_of(sc, n=14):
 
 def store_check(args, pid, mc_jobs, gen, invs, array_dup_oracle, assumptions, classify=None,
                 mc_props=("FlushInvisible", "DiskEqualsViewAfterSwap"), nontrivial_rule=None, value_oracle=None,
-                extra_cov=None):
+                extra_cov=None, end_oracle=True, decision_lines=False):
     """Common driver: (M) exhaustive TLC jobs, counterexamples replayed as
     hypotheses; (R) simulated behaviours replayed on the real code, traces
     validated by TLC, end-state oracle."""
@@ -376,6 +403,7 @@ def store_check(args, pid, mc_jobs, gen, invs, array_dup_oracle, assumptions, cl
                             job.get("props", mc_props), os.path.join(work, "mc%d" % mi),
                             max_flushes=job.get("max_flushes", 3), max_crashes=job.get("max_crashes", 2),
                             trunc_every=job.get("trunc_every", 2), sorted_set=job.get("sorted", (False,)),
+                            field_menu=job.get("field_menu"), where_menu=job.get("where_menu"),
                             timeout=600 if quick else 3000)
             states += r.distinct
             trans += r.generated
@@ -409,7 +437,8 @@ def store_check(args, pid, mc_jobs, gen, invs, array_dup_oracle, assumptions, cl
             tabs_of[sc["scn"]] = tabs
         print("[%s] %d scenarios generated at %.1fs" % (pid, len(scenarios), time.time() - t0), flush=True)
         stats, traces, fails, viols = run_and_judge(pid, V, bins, scenarios, lambda s: tabs_of[s["scn"]], flags, invs,
-                                                   work, array_dup_oracle, classify, value_oracle=value_oracle)
+                                                   work, array_dup_oracle, classify, value_oracle=value_oracle,
+                                                   end_oracle=end_oracle, decision_lines=decision_lines)
         if extra_cov:
             cov.update(extra_cov(scenarios, traces))
         cov.update({"traces_validated_against_impl": stats["accepted"],
@@ -609,11 +638,147 @@ def check_C01(args):
                        + BASE_ASSUMPTIONS, classify=classify, value_oracle=c01_value_oracle)
 
 
+# ---------------------------------------------------------------- C14
+
+C14_TABLES = [Table("a", fields=("f",), where="all", group=("a",), res=2, ret=4),
+              Table("b", fields=("f", "g"), where="by", group=("a", "b"), res=1, ret=3)]
+C14_TABLES2 = [Table("a", fields=("f",), where="all", group=("a",), res=3, ret=3),
+               Table("b", fields=("f",), where="all", group=(), res=1, ret=5)]
+RET_INVS = ["NoExpiredInTruncatedFile", "AtMostOnce", "OffsetsOrdered"]
+
+
+def aging_menu(rng, n, span=14):
+    """Mostly advancing timestamps with late and out-of-order points, several
+    points per key so that series straddle the retention boundary."""
+    menu, now = [], 0
+    for i in range(n):
+        now += rng.choice([0, 1, 1, 2, 3])
+        ts = now if rng.random() < 0.65 else max(0, now - rng.randint(1, 7))
+        ts = min(ts, span)
+        k = rng.choice([1, 1, 3, 4])
+        vs, nn = (("w", "x"), 1) if rng.random() < 0.8 else (("w",), 2)
+        menu.append(point(i + 1, ts, k, vs=vs, n=nn))
+    return menu
+
+
+def check_C14(args):
+    def mc_jobs(quick):
+        menu = [point(1, 2, 1), point(2, 7, 3, vs=("w", "x")), point(3, 1, 1), point(4, 9, 1)]
+        jobs = [dict(tables=C14_TABLES, menu=menu, max_flushes=4, max_crashes=1, trunc_every=2, invs=RET_INVS,
+                     props=("NeverDropLive", "NeverStoreExpired"))]
+        if not quick:
+            jobs.append(dict(tables=C14_TABLES2, menu=menu + [point(5, 4, 4)], max_flushes=5, max_crashes=1,
+                             trunc_every=3, invs=RET_INVS, props=("NeverDropLive", "NeverStoreExpired")))
+        return jobs
+
+    def gen(rng, quick, work, flags):
+        n_menus, per = (6, 16) if quick else (50, 80)
+        for mi in range(n_menus):
+            tabs = rng.choice([C14_TABLES, C14_TABLES2])
+            menu = aging_menu(rng, rng.randint(6, 12))
+            long = mi % 3 == 0
+            hs = sim_scripts(tabs, menu, flags, per, 110 if long else 50, rng.randint(1, 10 ** 6),
+                             os.path.join(work, "sim%d" % mi), max_flushes=26 if long else 8, max_crashes=1,
+                             allow_crash=mi % 2 == 0, allow_close=True)
+            for j, h in enumerate(hs):
+                yield scenario_from_hist("C14-%d-%d" % (mi, j), tabs, menu, h, subsets=rng), tabs
+
+    return store_check(args, "C14", mc_jobs, gen, RET_INVS, True,
+                       ["virtual clock: now = newest accepted timestamp since the last open; it restarts at zero on open",
+                        "a period ending at P is expired iff P <= now - retention",
+                        "the harness maps WAL offsets to entries by entry content"],
+                       end_oracle=False, decision_lines=True)
+
+
+# ---------------------------------------------------------------- C15
+
+C15_TABLES = [Table("a", fields=("f", "g"), where="all", group=("a",), res=2),
+              Table("b", fields=("pc", "f", "mxv"), where="bx", group=("a", "b"), res=1)]
+ALTER_INVS = ["AtMostOnce", "OffsetsOrdered"]
+
+
+def random_field_menu(rng, table, n):
+    """Successive field lists: permutations, insertions and deletions; an id
+    that was removed is never added again (fresh identities only), and one
+    decodable field is always retained."""
+    pool = [f for f in ["f", "g", "h", "i", "pc", "mxv", "avv"]]
+    cur = list(table.fields)
+    used = set(cur)
+    keep = next(f for f in cur if f in FIELDS)
+    out = []
+    for _ in range(n):
+        for _ in range(20):
+            new = list(cur)
+            r = rng.random()
+            fresh = [f for f in pool if f not in used]
+            if r < 0.3 and len(new) > 1:
+                rng.shuffle(new)
+            elif r < 0.65 and fresh:
+                new.insert(rng.randint(0, len(new)), rng.choice(fresh))
+            else:
+                cand = [f for f in new if f != keep]
+                if cand:
+                    new.remove(rng.choice(cand))
+            if new != cur:
+                break
+        if new == cur:
+            break
+        used |= set(new)
+        cur = new
+        out.append(["p"] + cur)
+    return out
+
+
+def check_C15(args):
+    props = ("AlterKeepsRetained", "AddedStartEmpty", "FlushInvisible")
+
+    def mc_jobs(quick):
+        fm = {"a": [["p", "g", "f"], ["p", "f", "h"]], "b": [["p", "f"]]}
+        wm = {"a": ["by"]}
+        jobs = [dict(tables=MC_TABLES, menu=MC_MENU[:2], max_flushes=2, max_crashes=1, invs=ALTER_INVS, props=props,
+                     field_menu={"a": fm["a"]}, where_menu=wm)]
+        if not quick:
+            jobs.append(dict(tables=MC_TABLES, menu=MC_MENU, max_flushes=3, max_crashes=1, invs=ALTER_INVS, props=props,
+                             field_menu=fm, where_menu=wm))
+            fm2 = {"a": [["p", "f", "g", "h"], ["p", "h", "f"], ["p", "f"]], "b": [["p", "g", "f"]]}
+            jobs.append(dict(tables=MC_TABLES, menu=MENU2[:3], max_flushes=4, max_crashes=1, invs=ALTER_INVS, props=props,
+                             field_menu=fm2, where_menu={"b": ["all"]}))
+        return jobs
+
+    def gen(rng, quick, work, flags):
+        n_menus, per = (6, 16) if quick else (50, 80)
+        for mi in range(n_menus):
+            tabs = C15_TABLES
+            menu = random_menu(rng, rng.randint(5, 9), nums=True)
+            fm = {t.name: random_field_menu(rng, t, rng.randint(1, 4)) for t in tabs}
+            wm = {"a": rng.sample(["by", "a1", "all"], rng.randint(0, 2)), "b": rng.sample(["all", "by"], rng.randint(0, 1))}
+            hs = sim_scripts(tabs, menu, flags, per, rng.choice([45, 60]), rng.randint(1, 10 ** 6),
+                             os.path.join(work, "sim%d" % mi), max_flushes=8, max_crashes=2, allow_close=True,
+                             field_menu=fm, where_menu=wm)
+            for j, h in enumerate(hs):
+                yield scenario_from_hist("C15-%d-%d" % (mi, j), tabs, menu, h, subsets=rng if mi % 2 else None), tabs
+
+    def extra_cov(scenarios, traces):
+        n_alt = sum(1 for s in scenarios for c in s["cmds"] if c["a"] == "Alter")
+        with_alt_flush_restart = 0
+        for s in scenarios:
+            acts = [c["a"] for c in s["cmds"]]
+            if "Alter" in acts and "FlushSwap" in acts and ("Crash" in acts or "Close" in acts):
+                with_alt_flush_restart += 1
+        return {"alter_steps": n_alt, "behaviours_with_alter_flush_and_restart": with_alt_flush_restart}
+
+    return store_check(args, "C15", mc_jobs, gen, ALTER_INVS, True,
+                       ["a field keeps its identity iff name and expression are unchanged (core.Field.Equals)",
+                        "a removed field is never added again in one behaviour (its old column may still be on disk until the next flush)",
+                        "all points inside the retention window"] + BASE_ASSUMPTIONS[:1] + BASE_ASSUMPTIONS[2:],
+                       end_oracle=False, decision_lines=True, extra_cov=extra_cov)
+
+
 def tables_from_defs(sc):
     """Rebuild Table objects of a stored scenario (replay)."""
     out = []
     for d in sc["tables"]:
-        cand = [t for t in MC_TABLES + C03_TABLES + C01_TABLES if t.define() == d]
+        cand = [t for t in MC_TABLES + C03_TABLES + C01_TABLES + C14_TABLES + C14_TABLES2 + C15_TABLES if t.define() == d]
         if cand:
             out.append(cand[0])
         else:
@@ -621,4 +786,4 @@ def tables_from_defs(sc):
     return out
 
 
-CHECKS = {"C01": check_C01, "C02": check_C02, "C03": check_C03}
+CHECKS = {"C15": check_C15, "C14": check_C14, "C01": check_C01, "C02": check_C02, "C03": check_C03}
